@@ -841,6 +841,40 @@ fn case_decode_scalars(j: &mut J, r: &mut Rng, n: usize) -> u64 {
     h
 }
 
+/// `Curve::scalar_from_bytes` against its documentation: the first `CAPACITY` bits of the
+/// input read as a little-endian integer; shorter inputs are zero-extended, bytes beyond
+/// `num_limbs * 8` are ignored. Input lengths sweep 0..=40 so that every partial last chunk occurs.
+fn case_scalar_from_bytes<C: Curve>(j: &mut J, r: &mut Rng, curve: &str) -> u64 {
+    let cap = <C::Scalar as PrimeField>::CAPACITY as u64;
+    let nl = C::Scalar::zero().into_repr().len();
+    let mut h = 0u64;
+    for len in 0..=40usize {
+        let mut bs = match r.below(4) {
+            0 => vec![0xffu8; len],
+            1 => {
+                let mut v = vec![0u8; len];
+                if len > 0 {
+                    v[len - 1] = 1 + r.below(255) as u8;
+                }
+                v
+            }
+            _ => r.bytes(len),
+        };
+        if len > 0 && r.chance(1, 2) {
+            // the last byte is what a dropped partial chunk would lose
+            bs[len - 1] |= 0x01;
+        }
+        let mut used = bs.clone();
+        used.truncate(nl * 8);
+        let expect = BigUint::from_bytes_le(&used) % (BigUint::one() << cap);
+        h ^= vmon_core::fnv(&bs);
+        let case = || json!({"curve": curve, "input_hex": vmon_core::hex(&bs), "input_len": len, "capacity_bits": cap});
+        let Some(got) = j.lib(&format!("scalar_from_bytes.{}", curve), case, || scalar_big::<C>(&C::scalar_from_bytes(&bs))) else { continue };
+        j.check(&format!("scalar_from_bytes.{}.value", curve), got == expect, || (format!("scalar_from_bytes of {} bytes gives {}, the documented value (first {} bits, little endian, zero-extended) is {}", len, got, cap, expect), case()));
+    }
+    h
+}
+
 // ------------------------------------------------------------ hash to group
 
 fn case_hash<C: Curve>(j: &mut J, r: &mut Rng, curve: &str, classify: Option<fn(&[u8]) -> (&'static str, bool)>) -> u64 {
@@ -1277,7 +1311,13 @@ pub fn run(ctx: &ChildCtx, sh: &mut Shard) {
             7 | 8 => ("decode.g1", case_decode_g1(&mut j, &mut r, &mut cr, nd)),
             9 => ("decode.g2", case_decode_g2(&mut j, &mut r, &mut cr, nd / 2)),
             10 | 11 => ("decode.ristretto", case_decode_ristretto(&mut j, &mut r, &mut cr, nd)),
-            12 => ("decode.scalars", case_decode_scalars(&mut j, &mut r, nd * 2)),
+            12 => {
+                let a = case_decode_scalars(&mut j, &mut r, nd * 2);
+                let b = case_scalar_from_bytes::<ArCurve>(&mut j, &mut r, "g1");
+                let c = case_scalar_from_bytes::<BlsG2>(&mut j, &mut r, "g2");
+                let d = case_scalar_from_bytes::<RistrettoPoint>(&mut j, &mut r, "ristretto");
+                ("decode.scalars", a ^ b ^ c ^ d)
+            }
             13 => {
                 let a = case_hash::<ArCurve>(&mut j, &mut r, "g1", Some(classify_g1));
                 let b = case_hash::<BlsG2>(&mut j, &mut r, "g2", Some(classify_g2));
